@@ -36,7 +36,8 @@ Theorem C16_buf_step_conservation : forall (s : st) (o : op) (s' : st) (r : res)
   (exists pulled, concat (src s) = pulled ++ concat (src s')) /\
   match o with
   | Feed d => lg = d /\ src s' = src s
-  | Until d m fs => exists k, src s' = fetch_rest k (knd s) (src s) /\ lg = fetch_arrivals k (knd s) (src s) fs
+  | Until d m fs | CUntil _ d m fs =>
+      exists k, src s' = fetch_rest k (knd s) (src s) /\ lg = fetch_arrivals k (knd s) (src s) fs
   | _ => concat (src s) = lg ++ concat (src s')
   end.
 Proof. exact step_conservation. Qed.
@@ -103,6 +104,7 @@ Theorem C16_buf_until_spec : forall (s : st) (d : list Z) (m : Z) (fs : list (li
     | RIncomplete => buf s' = buf s ++ lg /\ src s' = [] /\
                      exists k0, k = S k0 /\
                        lg = fetch_arrivals k0 (knd s) (src s) fs ++ hd [] (skipn k0 fs)
+    | RCancelled => buf s' = buf s ++ lg      (* excluded for an uncancelled call by C16_buf_uncancelled_never_cancelled *)
     | _ => False
     end.
 Proof. exact buf_until_spec. Qed.
@@ -151,12 +153,12 @@ Proof. exact search_offset_complete. Qed.
 Print Assumptions C16_buf_search_offset.
 
 Theorem C16_buf_until_offset_sound : forall (s : st) (d : list Z) (m : Z) (fs : list (list Z)),
-  step_log s (Until d m fs) = until_naive (fuel_of s) s d m fs.
+  step_log s (Until d m fs) = until_naive (fuel_of s) 0 s d m fs.
 Proof. exact until_offset_sound. Qed.
 Print Assumptions C16_buf_until_offset_sound.
 
 (* ---- 5. a call that fails (EndOfStream, IncompleteRead, DelimiterNotFound, ValueError - also for a negative count or
-        a non-positive max_bytes) hands out nothing; what arrived during it is in the buffer, in order; without feeds
+        a non-positive max_bytes - or CANCELLATION: `failed` includes RCancelled) hands out nothing; what arrived during it is in the buffer, in order; without feeds
         during the call buffer ++ wrapped stream is unchanged ---- *)
 Theorem C16_buf_fail_consumes_nothing : forall (s : st) (o : op) (s' : st) (r : res) (lg : list Z),
   step_log s o = (s', r, lg) -> failed r ->
@@ -166,6 +168,32 @@ Theorem C16_buf_fail_consumes_nothing : forall (s : st) (o : op) (s' : st) (r : 
   (no_feed o = true -> buf s' ++ concat (src s') = buf s ++ concat (src s)).
 Proof. exact buf_fail_consumes_nothing. Qed.
 Print Assumptions C16_buf_fail_consumes_nothing.
+
+(* ---- 5b. cancellation.  CReceive/CExactly/CUntil k ...: the call runs in a cancel scope; k = 0: cancelled at entry,
+        k >= 1: its k-th fetch from the wrapped stream (the only place where HEAD waits) raises the cancellation.
+        For every state reachable by any op sequence: a cancelled call hands out nothing, the chunks it had already
+        fetched are in the buffer in order, buffer ++ not-yet-fetched stream is unchanged ---- *)
+Theorem C16_buf_cancelled_consumes_nothing : forall (ops : list op) (s0 : st) (o : op) (s' : st) (lg : list Z),
+  step_log (final step s0 ops) o = (s', RCancelled, lg) ->
+  consumed_of o RCancelled = [] /\
+  buf s' = buf (final step s0 ops) ++ lg /\
+  (exists pulled, concat (src (final step s0 ops)) = pulled ++ concat (src s')) /\
+  (no_feed o = true ->
+   buf s' ++ concat (src s') = buf (final step s0 ops) ++ concat (src (final step s0 ops))).
+Proof. exact buf_cancelled_consumes_nothing. Qed.
+Print Assumptions C16_buf_cancelled_consumes_nothing.
+
+Theorem C16_buf_entry_cancel : forall (s : st) (n : Z) (d : list Z) (m : Z) (fs : list (list Z)),
+  step_log s (CReceive 0 n) = (s, RCancelled, []) /\
+  step_log s (CExactly 0 n) = (s, RCancelled, []) /\
+  step_log s (CUntil 0 d m fs) = (s, RCancelled, []).
+Proof. exact buf_entry_cancel. Qed.
+Print Assumptions C16_buf_entry_cancel.
+
+Theorem C16_buf_uncancelled_never_cancelled : forall (s : st) (o : op),
+  match o with CReceive _ _ | CExactly _ _ | CUntil _ _ _ _ => True | _ => snd (step s o) <> RCancelled end.
+Proof. exact buf_uncancelled_never_cancelled. Qed.
+Print Assumptions C16_buf_uncancelled_never_cancelled.
 
 (* ---- the tree before the fixes violated these clauses (F27, F28, F29: fixed in /repo) ---- *)
 Theorem C16_buf_until_feed_refuted_pinned : exists s d m fs s' x lg,
